@@ -375,6 +375,16 @@ class Model:
             start = b.pos
             if self.cmp_deliv:
                 self.deliv_hi = max(self.deliv_hi, start + examined)
+            # a scanner using the REJECT machinery cannot grow its buffer: a token (with the
+            # look-ahead needed to delimit it) that does not fit ends in the documented
+            # fatal error; accepted only when it really does not fit
+            ob = self.peek()
+            if ob is not None and ob[:2] == ["F", "reject_ovf"]:
+                bs = self.case.get("bufsize") or self.o.get("bufsize") or 0
+                if bs and len(prefix) + examined + 2 >= bs:
+                    self.emit(["F", "reject_ovf"])
+                    self.f("reject_buffer_limit")
+                    raise Stop()
             if not cands:
                 # no rule matches, not even the default rule (-s)
                 self.emit(["F", "jam"])
